@@ -292,7 +292,8 @@ PRIOS = [1, 2]
 
 
 class RNode:
-    __slots__ = ("key", "kind", "prio", "children", "value", "obj")
+    __slots__ = ("key", "kind", "prio", "children", "value", "obj",
+                 "removed")
 
     def __init__(self, key, kind, prio):
         self.key = key
@@ -301,11 +302,13 @@ class RNode:
         self.children = []      # ordered
         self.value = 3
         self.obj = None
+        self.removed = []       # (root only) nodes taken out, newest last
 
 
 def r_canon(node):
     return (node.key, node.kind, node.prio, node.value if node.kind == "int"
-            else None, tuple(r_canon(c) for c in node.children))
+            else None, tuple(r_canon(c) for c in node.children),
+            tuple(r_canon(c) for c in node.removed[-2:]))
 
 
 def r_find(root, path):
@@ -351,6 +354,13 @@ def ops_for(root):
         if node.kind == "int":
             ops.append(("mset", p, 7))
             ops.append(("mset", p, 99))
+    # a parameter that was taken out is put into a map again (the same or
+    # another one); sub-trees stay out to keep the depth bounded
+    for back, node in enumerate(reversed(root.removed[-2:])):
+        if node.kind == "map" and node.children:
+            continue
+        for mp in r_maps(root):
+            ops.append(("readd", back, mp))
     return ops
 
 
@@ -401,6 +411,32 @@ def apply_both(model, rroot, op):
         except Exception as ex:  # noqa
             bad.append(("remove-raised", op, type(ex).__name__))
         r_find(rroot, p[:-1]).children.remove(node)
+        rroot.removed.append(node)
+    elif k == "readd":
+        _, back, mp = op
+        node = rroot.removed[-1 - back]
+        parent_r = r_find(rroot, mp)
+        parent = real_root if not mp else real_root.get(".".join(mp))
+        dup = any(c.key == node.key for c in parent_r.children)
+        try:
+            parent.add(node.obj)
+            made = True
+        except ValueError:
+            made = False
+        except Exception as ex:  # noqa
+            made = False
+            bad.append(("add-wrong-exception", op, type(ex).__name__))
+        if dup and made:
+            bad.append(("duplicate-key-accepted", op))
+        if not dup and not made:
+            bad.append(("add-refused", op))
+        if made and not dup:
+            rroot.removed.remove(node)
+            ch = parent_r.children
+            i = len(ch)
+            while i > 0 and ch[i - 1].prio > node.prio:
+                i -= 1
+            ch.insert(i, node)
     elif k == "mset":
         _, p, v = op
         node = r_find(rroot, p)
@@ -489,6 +525,44 @@ def replay_tree(hist):
     return model, rroot, bad
 
 
+def move_family():
+    """histories of length 4-6 that the breadth-first search does not reach
+    in the quick tier: a parameter is taken out of a map, another parameter
+    may take its key there, and the first one is put into the same or another
+    map (and possibly taken out and put back once more)"""
+    hists = []
+    for mkey in KEYS[:2]:
+        for key in KEYS:
+            if key == mkey:
+                continue
+            for kx in ("int", "map"):
+                for ky in (None, "int", "map"):
+                    for p1 in ((), (mkey,)):
+                        for p2 in ((), (mkey,)):
+                            h = [("create", (), "map", mkey, 1),
+                                 ("create", p1, kx, key, 1),
+                                 ("remove", p1 + (key,))]
+                            if ky is not None:
+                                h.append(("create", p1, ky, key, 2))
+                            h.append(("readd", 0, p2))
+                            hists.append(tuple(h))
+                            if ky is None or p1 != p2:
+                                hists.append(tuple(h) + (
+                                    ("remove", p2 + (key,)),
+                                    ("readd", 0, p1)))
+    n = 0
+    viols = []
+    for h in hists:
+        n += 1
+        try:
+            _, _, bad = replay_tree(h)
+        except Exception as ex:  # noqa
+            bad = [("history-raised", type(ex).__name__, str(ex)[:80])]
+        if bad:
+            viols.append((h, bad[0]))
+    return n, viols
+
+
 def e2_bfs(depth, cap):
     seen = {r_canon(RNode("root", "map", 1)): ()}
     frontier = collections.deque([()])
@@ -545,6 +619,14 @@ def run(ctx):
                       "parameter tree after %s: %s" % (list(h), b),
                       {"part": "E2", "hist": [list(o) for o in h]},
                       rank=len(h))
+    nm, mviols = move_family()
+    for h, b in mviols:
+        ctx.violation("C18:tree:%s" % b[0],
+                      "parameter tree after %s: %s" % (list(h), b),
+                      {"part": "E2", "hist": [list(o) for o in h]},
+                      rank=len(h))
+    ctx.part("E2 take-out / put-back histories (length 4-7)", histories=nm,
+             violations=len(mviols))
     if capped:
         ctx.cap("E2 state cap hit")
     ctx.part("E2 tree BFS", states=len(seen), transitions=trans,
@@ -557,7 +639,8 @@ def run(ctx):
         explanation="E2: states = reference parameter trees (ordered children "
         "with kind/priority/value); every op (create int/map with key in "
         "{a,b,c} x priority {1,2} in every existing map up to depth 2, "
-        "remove, model-level set) is applied to a real tree under a real "
+        "remove, put a removed parameter back into any map, model-level set) "
+        "is applied to a real tree under a real "
         "DSOLModel replayed from scratch, followed by a full observation: "
         "listing order of every map, identity get by dotted key from the "
         "root and from the parent map, extended_key, value, model get, absent "
